@@ -355,12 +355,20 @@ int kx_net_dispatch(char **tok, int ntok, int *handled) {
 		KSI_Signature_free(*slot); *slot = s; return rc; }
 	if (is("extend")) { /* extend <c> <s> <d> [to=t] [pub=string] [api=extend|extendTo|nearest] */
 		KSI_CTX *c = kx_ctx(atoi(tok[1])); KSI_Signature *s = *kx_sigslot(atoi(tok[2])); KSI_Signature **slot = kx_sigslot(atoi(tok[3])); KSI_Signature *e = NULL; int rc; const char *api = kx_kv("api");
+		/* reusectx=1: the caller passes its own verification context, the one it has just used to verify the original signature (its
+		 * signature field still points to the original) */
+		KSI_VerificationContext vc, *pvc = NULL;
+		if (kx_kvl("reusectx", 0)) { KSI_PolicyVerificationResult *pr0 = NULL; if (KSI_VerificationContext_init(&vc, c) != KSI_OK) return -3; vc.signature = s;
+			KSI_SignatureVerifier_verify(KSI_VERIFICATION_POLICY_INTERNAL, &vc, &pr0); KSI_PolicyVerificationResult_free(pr0); pvc = &vc; }
 		if (api && !strcmp(api, "nearest")) rc = KSI_extendSignature(c, s, &e);
-		else if (kx_kv("pub")) { KSI_PublicationData *pd = NULL; KSI_PublicationRecord *pr = NULL; rc = KSI_PublicationData_fromBase32(c, kx_kv("pub"), &pd); if (rc) { kx_out(" stage=pub"); return rc; }
-			rc = KSI_PublicationRecord_new(c, &pr); if (rc) { KSI_PublicationData_free(pd); kx_out(" stage=pubrec"); return rc; }
-			KSI_PublicationRecord_setPublishedData(pr, pd); rc = KSI_Signature_extend(s, c, pr, &e); KSI_PublicationRecord_free(pr); }
-		else if (kx_kv("to")) { KSI_Integer *t = NULL; rc = KSI_Integer_new(c, kx_kvu("to", 0), &t); if (rc) { kx_out(" stage=to"); return rc; } rc = KSI_Signature_extendTo(s, c, t, &e); KSI_Integer_free(t); }
-		else rc = KSI_Signature_extendTo(s, c, NULL, &e);
+		else if (kx_kv("pub")) { KSI_PublicationData *pd = NULL; KSI_PublicationRecord *pr = NULL; rc = KSI_PublicationData_fromBase32(c, kx_kv("pub"), &pd); if (rc) { kx_out(" stage=pub"); goto ext_done; }
+			rc = KSI_PublicationRecord_new(c, &pr); if (rc) { KSI_PublicationData_free(pd); kx_out(" stage=pubrec"); goto ext_done; }
+			KSI_PublicationRecord_setPublishedData(pr, pd); rc = KSI_Signature_extendWithPolicy(s, c, pr, KSI_VERIFICATION_POLICY_INTERNAL, pvc, &e); KSI_PublicationRecord_free(pr); }
+		else if (kx_kv("to")) { KSI_Integer *t = NULL; rc = KSI_Integer_new(c, kx_kvu("to", 0), &t); if (rc) { kx_out(" stage=to"); goto ext_done; } rc = KSI_Signature_extendToWithPolicy(s, c, t, KSI_VERIFICATION_POLICY_INTERNAL, pvc, &e); KSI_Integer_free(t); }
+		else rc = KSI_Signature_extendToWithPolicy(s, c, NULL, KSI_VERIFICATION_POLICY_INTERNAL, pvc, &e);
+ext_done:
+		if (pvc) { vc.signature = NULL; KSI_VerificationContext_clean(&vc); }
+		if (rc != KSI_OK && (kx_kv("pub") || kx_kv("to")) && e == NULL && 0) return rc;
 		if (rc != KSI_OK) out_ksi_err(c);
 		if (rc != KSI_OK && e) kx_out(" objonerr=1");
 		if (rc == KSI_OK && e) out_sig("sig", e);
